@@ -219,13 +219,15 @@ class Interp:
             if isinstance(w, LoopIR.Point):
                 p = self.ev(w.pt, env)
                 if p < 0 or p >= n:
-                    self.trip("oob", f"window {e.name} point {p} dim {d} extent {n}")
+                    self.trip("win_extent", f"window {e.name} point {p} dim {d} extent {n}")
                 off += p * s
             else:
                 lo = self.ev(w.lo, env)
                 hi = self.ev(w.hi, env)
                 if lo < 0 or hi > n or lo > hi:
-                    self.trip("oob", f"window {e.name} interval [{lo}:{hi}] dim {d} extent {n}")
+                    # an over-wide window is not itself an access; accesses through it are
+                    # checked against the view (oob) and the backing store (oob_base)
+                    self.trip("win_extent", f"window {e.name} interval [{lo}:{hi}] dim {d} extent {n}")
                 off += lo * s
                 strides.append(s)
                 shape.append(hi - lo)
